@@ -23,6 +23,8 @@ import (
 // real sfold as its child for the coalesce step.  With fault the fold fails.  The answer names the
 // snapshot the cleaner picked (the one it marked removed / deleted), "-" if none.  The replica is
 // reopened on a fresh Server object afterwards, which also ends the cleaner goroutine.
+var foldFaults int
+
 func (im *Impl) cleaner(ck string, fault bool) string {
 	r := im.rep()
 	if r == nil || r.VerifMode() != "RW" || im.rb != nil {
@@ -55,7 +57,9 @@ func (im *Impl) cleaner(ck string, fault bool) string {
 	marker := im.Dir + "/.verif-fold-fault"
 	os.Remove(marker)
 	if fault {
-		os.WriteFile(marker, nil, 0644)
+		// the fold fails: by an exit status, or killed by a signal (every other time)
+		foldFaults++
+		os.WriteFile(marker, []byte([]string{"exit", "signal"}[foldFaults%2]), 0644)
 	}
 	defer os.Remove(marker)
 	before := im.diskFlags()
